@@ -6,6 +6,7 @@
    correspondence on generated objects (all levels, both dictionary generations, all transports). *)
 From Coq Require Import List ZArith.
 From Yv Require Import Serial.SplitCombine Serial.SplitCombineLaws Serial.Listify.
+From Yv Require Base.Deleg Gen.DelegGen.
 Import ListNotations.
 
 Theorem C17_split_combine d : let '(m, data) := split_dict d [] in combine_dict data m = d.
@@ -31,8 +32,14 @@ Example C17_nonvacuous :
   /\ convert (listify (PTuple (SCons (PAtom 1) (SCons (PTuple (SCons (PAtom 2) SNil)) SNil)))) = PTuple (SCons (PAtom 1) (SCons (PTuple (SCons (PAtom 2) SNil)) SNil)).
 Proof. split; reflexivity. Qed.
 
+(* --- options are handed down under their own names (facts regenerated from the source on every run by tools/translate/tr_deleg.py): to_dict / to_numpy / to_dense delegate level, meta, legs, native, reverse under their own names (one inner call after the embedding drops meta: allowed once) --- *)
+Theorem C17_options_forwarded :
+  Deleg.deleg_ok Deleg.pre_output DelegGen.delegations DelegGen.allowed = true /\ Nat.ltb 0 (Deleg.n_facts Deleg.pre_output DelegGen.delegations) = true.
+Proof. split; vm_compute; reflexivity. Qed.
+
 Print Assumptions C17_split_combine.
 Print Assumptions C17_split_combine_invariants.
 Print Assumptions C17_transport_roundtrip.
 Print Assumptions C17_no_transport_roundtrip.
 Print Assumptions C17_converted_is_hashable.
+Print Assumptions C17_options_forwarded.
